@@ -15,16 +15,28 @@ pub fn unix_time_unit_offset() -> u64 {
 
 #[inline]
 pub fn sleep_for_ms(ms: u64) {
+    #[cfg(sentinel_verif)]
+    if verif_clock::virtual_sleep_ns(ms.saturating_mul(1_000_000)) {
+        return;
+    }
     std::thread::sleep(std::time::Duration::from_millis(ms));
 }
 
 #[inline]
 pub fn sleep_for_ns(ns: u64) {
+    #[cfg(sentinel_verif)]
+    if verif_clock::virtual_sleep_ns(ns) {
+        return;
+    }
     std::thread::sleep(std::time::Duration::from_nanos(ns));
 }
 
 #[inline]
 fn cal_curr_time_millis() -> u64 {
+    #[cfg(sentinel_verif)]
+    if let Some(ns) = verif_clock::now_ns() {
+        return ns / 1_000_000;
+    }
     (OffsetDateTime::now_utc().unix_timestamp_nanos() / (*UNIX_TIME_UNIT_OFFSET)) as u64
 }
 
@@ -54,6 +66,10 @@ pub fn format_time_nanos_curr() -> String {
 }
 
 pub fn curr_time_millis() -> u64 {
+    #[cfg(sentinel_verif)]
+    if let Some(ns) = verif_clock::now_ns() {
+        return ns / 1_000_000;
+    }
     // todo: conditional compilation, `config::use_cache_time()`
     let ticker_time = curr_time_millis_with_ticker();
     if ticker_time > 0 {
@@ -65,6 +81,10 @@ pub fn curr_time_millis() -> u64 {
 
 #[inline]
 pub fn curr_time_nanos() -> i128 {
+    #[cfg(sentinel_verif)]
+    if let Some(ns) = verif_clock::now_ns() {
+        return ns as i128;
+    }
     OffsetDateTime::now_utc().unix_timestamp_nanos()
 }
 
@@ -74,6 +94,72 @@ pub fn milli2nano<T: Into<i128>>(t: T) -> i128 {
 }
 
 pub use ticker::*;
+
+/// Virtual clock for deterministic simulation. Only compiled with `--cfg sentinel_verif`;
+/// while disabled (the default even then) every function above behaves as without the flag.
+#[cfg(sentinel_verif)]
+pub mod verif_clock {
+    // `core::sync::atomic` on purpose: these are never scheduling points of a simulated schedule.
+    use core::sync::atomic::{AtomicBool, AtomicU64, Ordering};
+
+    static ENABLED: AtomicBool = AtomicBool::new(false);
+    static NOW_NS: AtomicU64 = AtomicU64::new(0);
+    static SLEPT_NS: AtomicU64 = AtomicU64::new(0);
+    static SLEEP_CALLS: AtomicU64 = AtomicU64::new(0);
+
+    /// Switches the virtual clock on and sets it to `ns` nanoseconds since the Unix epoch.
+    pub fn enable(ns: u64) {
+        NOW_NS.store(ns, Ordering::SeqCst);
+        ENABLED.store(true, Ordering::SeqCst);
+    }
+
+    pub fn disable() {
+        ENABLED.store(false, Ordering::SeqCst);
+    }
+
+    pub fn set_ns(ns: u64) {
+        NOW_NS.store(ns, Ordering::SeqCst);
+    }
+
+    pub fn advance_ns(ns: u64) -> u64 {
+        NOW_NS.fetch_add(ns, Ordering::SeqCst) + ns
+    }
+
+    #[inline]
+    pub fn now_ns() -> Option<u64> {
+        if ENABLED.load(Ordering::SeqCst) {
+            Some(NOW_NS.load(Ordering::SeqCst))
+        } else {
+            None
+        }
+    }
+
+    /// Total virtual nanoseconds slept and number of sleep calls since the last `reset_slept`.
+    pub fn slept() -> (u64, u64) {
+        (
+            SLEPT_NS.load(Ordering::SeqCst),
+            SLEEP_CALLS.load(Ordering::SeqCst),
+        )
+    }
+
+    pub fn reset_slept() {
+        SLEPT_NS.store(0, Ordering::SeqCst);
+        SLEEP_CALLS.store(0, Ordering::SeqCst);
+    }
+
+    /// A sleep under the virtual clock is an advance of the clock: the caller "was held".
+    #[inline]
+    pub(super) fn virtual_sleep_ns(ns: u64) -> bool {
+        if !ENABLED.load(Ordering::SeqCst) {
+            return false;
+        }
+        NOW_NS.fetch_add(ns, Ordering::SeqCst);
+        SLEPT_NS.fetch_add(ns, Ordering::SeqCst);
+        SLEEP_CALLS.fetch_add(1, Ordering::SeqCst);
+        std::thread::yield_now();
+        true
+    }
+}
 
 // provide cached time by a ticker
 pub mod ticker {
